@@ -96,3 +96,15 @@ Section Slip10.
   Definition derive_from_parsed_path (path : list N) (seed : bytes) : option (bytes * bytes) :=
     derive_from (master seed) path.
 End Slip10.
+
+(** [CredentialContext] (wallet + identity provider index + identity index + credential index
+    [u8]) and the paths its wrappers derive along:
+    [HasAttributeRandomness::get_attribute_commitment_randomness(tag)] calls
+    [wallet.get_attribute_commitment_randomness(identity_provider_index, identity_index,
+    credential_index, tag)], [get_cred_id_exponent] calls [wallet.get_prf_key(identity_provider_index,
+    identity_index)]. *)
+Record credential_context := { ctx_net : net; ctx_ip : N; ctx_id : N; ctx_cred : N }.
+Definition ctx_attribute_randomness_path (c : credential_context) (tag : N) : option (list N) :=
+  make_path (ctx_net c) [ctx_ip c; ctx_id c; 5; ctx_cred c; tag].
+Definition ctx_cred_id_prf_path (c : credential_context) : option (list N) :=
+  make_path (ctx_net c) [ctx_ip c; ctx_id c; 3].
